@@ -1,1 +1,302 @@
-(* placeholder, being written *)
+(* c17lex - the Ninja lexer and shell quoting parts of C19 and C17 (to be split into Properties_C19.v / Properties_C17.v).
+   Only theorem statements; each is closed by [exact <lemma>] (or a vm_compute check of a regenerated table) and
+   followed by Print Assumptions.  Names: c19_* belong to C19 (termination, bounds, tiling, EndOfFile), c17_* to C17
+   (keywords, bytes 0x80-0xFF, shell quoting).
+   Vocabulary (defined in Parse/NinjaLexProofs.v): [at_data data s] - the lexer state s is a cursor into the buffer
+   data; [slice data a b] - data[a..b); [gap_units c] - c is a sequence of non-newline spaces (9, 11, 12, 32) and
+   "$\n", "$\n\r", "$\r\n" continuations; [tok_chain data pos toks] - every token starts at or after the end of its
+   predecessor (the first: after pos), ends inside the buffer, and the skipped bytes form a gap; [rebuild] - gaps
+   and token bodies concatenated; [token_facts data m t] - the full lexical description of t (kind_facts). *)
+From LLB Require Import Base.Bytes Parse.NinjaLex Parse.NinjaLexProofs Path.ShellQuote Path.ShellQuoteProofs
+  gen.Gen_NinjaKeywords gen.Gen_ShellWhitelist.
+Local Open Scope N_scope.
+
+(* ================================ C19: the lexer terminates, stays inside the buffer, tiles it ================ *)
+
+(* no lex call runs out of fuel: from any state, in any mode *)
+Theorem c19_lex_total : forall m s, exists t s', lex m s = Ok (t, s').
+Proof. exact lex_total. Qed.
+Print Assumptions c19_lex_total.
+
+(* lex_progress: EndOfFile with the cursor at the very end, or a non-empty token and a strictly larger position *)
+Theorem c19_lex_progress : forall data m s t s', at_data data s -> lex m s = Ok (t, s') ->
+  (tk_kind t = TkEndOfFile /\ tk_len t = 0%nat /\ tk_start t = length data /\ l_pos s' = length data /\ l_rest s' = []) \/
+  (tk_kind t <> TkEndOfFile /\ (0 < tk_len t)%nat /\ (l_pos s < l_pos s')%nat /\ (l_pos s' <= length data)%nat).
+Proof. exact lex_progress. Qed.
+Print Assumptions c19_lex_progress.
+
+Theorem c19_lex_call_facts : forall data m s t s', at_data data s -> lex m s = Ok (t, s') ->
+  at_data data s' /\ (l_pos s <= tk_start t)%nat /\ l_pos s' = (tk_start t + tk_len t)%nat /\
+  (l_pos s' <= length data)%nat /\
+  gap_units (slice data (l_pos s) (tk_start t)) /\ token_facts data m t.
+Proof. exact lex_call_facts. Qed.
+Print Assumptions c19_lex_call_facts.
+
+(* end-of-file is reported only at the true end of the buffer, and always there *)
+Theorem c19_lex_eof_iff_at_end : forall data m s t s', at_data data s -> lex m s = Ok (t, s') ->
+  (tk_kind t = TkEndOfFile <-> tk_start t = length data).
+Proof. exact lex_eof_iff_at_end. Qed.
+Print Assumptions c19_lex_eof_iff_at_end.
+
+(* lex_all_total: ~ OutOfFuel for ALL byte strings and all modes *)
+Theorem c19_lex_all_total : forall m data, exists toks, lex_all m data = Ok toks.
+Proof. exact lex_all_total. Qed.
+Print Assumptions c19_lex_all_total.
+
+Theorem c19_lex_stream_total : forall modes data, exists toks, lex_stream modes data = Ok toks.
+Proof. exact lex_stream_total. Qed.
+Print Assumptions c19_lex_stream_total.
+
+Theorem c19_lex_stream_length : forall modes data toks, lex_stream modes data = Ok toks -> length toks = length modes.
+Proof. exact lex_stream_length. Qed.
+Print Assumptions c19_lex_stream_length.
+
+(* lex_all is a lex_stream with a constant mode sequence (every lex_stream theorem applies) that ends at the first
+   EndOfFile *)
+Theorem c19_lex_all_stream : forall m data toks, lex_all m data = Ok toks ->
+  lex_stream (repeat m (length toks)) data = Ok toks /\ eof_last toks.
+Proof. exact lex_all_stream. Qed.
+Print Assumptions c19_lex_all_stream.
+
+(* in bounds + ordered + gaps blank, for an adversarial mode sequence *)
+Theorem c19_lex_stream_chain : forall modes data toks, lex_stream modes data = Ok toks -> tok_chain data 0 toks.
+Proof. exact lex_stream_chain. Qed.
+Print Assumptions c19_lex_stream_chain.
+
+Theorem c19_lex_in_bounds : forall modes data toks t, lex_stream modes data = Ok toks -> In t toks ->
+  (tk_start t + tk_len t <= length data)%nat.
+Proof. exact lex_in_bounds. Qed.
+Print Assumptions c19_lex_in_bounds.
+
+(* lex_tokens_ordered + lex_gaps_blank *)
+Theorem c19_lex_tokens_ordered : forall modes data l1 t1 t2 l2, lex_stream modes data = Ok (l1 ++ t1 :: t2 :: l2) ->
+  (tk_start t1 + tk_len t1 <= tk_start t2)%nat /\ gap_units (slice data (tk_start t1 + tk_len t1) (tk_start t2)).
+Proof. exact lex_tokens_ordered. Qed.
+Print Assumptions c19_lex_tokens_ordered.
+
+Theorem c19_lex_first_gap : forall modes data t ts, lex_stream modes data = Ok (t :: ts) -> gap_units (slice data 0 (tk_start t)).
+Proof. exact lex_first_gap. Qed.
+Print Assumptions c19_lex_first_gap.
+
+(* the exact set of byte sequences a gap is made of *)
+Theorem c19_gap_units_inv : forall c, gap_units c ->
+  c = [] \/ (exists b r, c = b :: r /\ is_nn_space b = true /\ gap_units r) \/
+  (exists r, c = 36 :: 10 :: r /\ gap_units r) \/ (exists r, c = 36 :: 10 :: 13 :: r /\ gap_units r) \/
+  (exists r, c = 36 :: 13 :: 10 :: r /\ gap_units r).
+Proof. exact gap_units_inv. Qed.
+Print Assumptions c19_gap_units_inv.
+
+(* no byte is lost or duplicated: gaps and token bodies in order are exactly the bytes the calls went over *)
+Theorem c19_lex_stream_tiles : forall modes data toks, lex_stream modes data = Ok toks ->
+  data = rebuild data 0 toks ++ skipn (toks_end 0 toks) data /\ toks_end 0 toks = length (rebuild data 0 toks).
+Proof. exact lex_stream_tiles. Qed.
+Print Assumptions c19_lex_stream_tiles.
+
+(* the tokens of lex_all tile the whole input and the last one (EndOfFile) ends at length data *)
+Theorem c19_lex_all_tiles : forall m data toks, lex_all m data = Ok toks ->
+  rebuild data 0 toks = data /\ toks_end 0 toks = length data /\ tok_chain data 0 toks.
+Proof. exact lex_all_tiles. Qed.
+Print Assumptions c19_lex_all_tiles.
+
+(* lex_eof_only_at_end, and every other token is non-empty *)
+Theorem c19_lex_eof_only_at_end : forall modes data toks t, lex_stream modes data = Ok toks -> In t toks ->
+  (tk_kind t = TkEndOfFile -> tk_start t = length data /\ tk_len t = 0%nat) /\
+  (tk_kind t <> TkEndOfFile -> (0 < tk_len t)%nat).
+Proof. exact lex_eof_only_at_end. Qed.
+Print Assumptions c19_lex_eof_only_at_end.
+
+(* the full lexical description of every token of a stream *)
+Theorem c19_lex_stream_token_facts : forall modes data toks, lex_stream modes data = Ok toks ->
+  Forall2 (token_facts data) modes toks.
+Proof. exact lex_stream_token_facts. Qed.
+Print Assumptions c19_lex_stream_token_facts.
+
+(* ================================ C17: bytes 0x80-0xFF are ordinary characters =============================== *)
+
+Theorem c17_high_byte_classes : forall b, 128 <= b ->
+  is_space b = false /\ is_nn_space b = false /\ is_nl b = false /\
+  is_ident_char b = false /\ is_simple_ident_char b = false /\
+  forall r pos line col, peek (mkL (b :: r) pos line col) = Some b /\
+                         fst (getc (mkL (b :: r) pos line col)) = Some b.
+Proof. exact high_byte_classes. Qed.
+Print Assumptions c17_high_byte_classes.
+
+Theorem c17_lex_high_byte_regular : forall m (b : byte) (r : bytes) pos line col, 128 <= b -> regular_mode m ->
+  lex m (mkL (b :: r) pos line col) = Ok (mkTok TkUnknown pos 1 line col, mkL r (S pos) line (col + 1)).
+Proof. exact lex_high_byte_regular. Qed.
+Print Assumptions c17_lex_high_byte_regular.
+
+Theorem c17_lex_high_byte_string : forall m (b : byte) (r : bytes) pos line col, 128 <= b ->
+  m = MPathString \/ m = MVariableString ->
+  exists n s', lex m (mkL (b :: r) pos line col) = Ok (mkTok TkString pos (S n) line col, s').
+Proof. exact lex_high_byte_string. Qed.
+Print Assumptions c17_lex_high_byte_string.
+
+(* lex_high_bytes_ordinary: for every mode sequence, a byte >= 128 the calls went over is inside a String token
+   (string modes), an Unknown token of length 1, or inside a comment (modes without strings) *)
+Theorem c17_lex_high_bytes_ordinary : forall modes data toks i b,
+  lex_stream modes data = Ok toks -> nth_error data i = Some b -> 128 <= b -> (i < toks_end 0 toks)%nat ->
+  exists m t, In (m, t) (combine modes toks) /\ (tk_start t <= i < tk_start t + tk_len t)%nat /\
+    ((tk_kind t = TkString /\ (m = MPathString \/ m = MVariableString)) \/
+     (tk_kind t = TkComment /\ regular_mode m /\ (tk_start t < i)%nat) \/
+     (tk_kind t = TkUnknown /\ regular_mode m /\ tk_start t = i /\ tk_len t = 1%nat)).
+Proof. exact lex_high_bytes_ordinary. Qed.
+Print Assumptions c17_lex_high_bytes_ordinary.
+
+Theorem c17_lex_all_high_bytes_in_strings : forall m data toks i b,
+  lex_all m data = Ok toks -> m = MPathString \/ m = MVariableString -> nth_error data i = Some b -> 128 <= b ->
+  exists t, In t toks /\ tk_kind t = TkString /\ (tk_start t <= i < tk_start t + tk_len t)%nat.
+Proof. exact lex_all_high_bytes_in_strings. Qed.
+Print Assumptions c17_lex_all_high_bytes_in_strings.
+
+Theorem c17_lex_all_high_bytes_unknown : forall m data toks i b,
+  lex_all m data = Ok toks -> regular_mode m -> nth_error data i = Some b -> 128 <= b ->
+  exists t, In t toks /\ (tk_start t <= i < tk_start t + tk_len t)%nat /\
+            ((tk_kind t = TkUnknown /\ tk_start t = i /\ tk_len t = 1%nat) \/ (tk_kind t = TkComment /\ (tk_start t < i)%nat)).
+Proof. exact lex_all_high_bytes_unknown. Qed.
+Print Assumptions c17_lex_all_high_bytes_unknown.
+
+(* ================================ C17: keywords are recognised only as whole words ============================ *)
+
+Theorem c17_lex_keywords_whole : forall data m s t s', at_data data s -> lex m s = Ok (t, s') ->
+  (is_keyword (tk_kind t) = true -> m = MNone /\ In (token_slice data t, tk_kind t) keyword_table) /\
+  (m = MNone -> forall k, In (token_slice data t, k) keyword_table -> tk_kind t = k) /\
+  (is_identlike (tk_kind t) = true ->
+     token_slice data t <> [] /\ Forall (fun b => is_ident_char b = true) (token_slice data t) /\
+     ends_with (fun b => negb (is_ident_char b)) (token_after data t)).
+Proof. exact lex_keywords_whole. Qed.
+Print Assumptions c17_lex_keywords_whole.
+
+Theorem c17_lex_no_keywords_outside_none : forall data m s t s', at_data data s -> lex m s = Ok (t, s') ->
+  m <> MNone -> is_keyword (tk_kind t) = false.
+Proof. exact lex_no_keywords_outside_none. Qed.
+Print Assumptions c17_lex_no_keywords_outside_none.
+
+(* whole words to the left as well, for every mode sequence *)
+Theorem c17_lex_identifier_left_boundary : forall modes data toks t, lex_stream modes data = Ok toks -> In t toks ->
+  is_identlike (tk_kind t) = true -> left_boundary data t.
+Proof. exact lex_identifier_left_boundary. Qed.
+Print Assumptions c17_lex_identifier_left_boundary.
+
+(* the probe-table property holds of the model's lexer on EVERY input *)
+Theorem c17_lex_first_token_kw_ok : forall ic, charclass_matches is_ident_char ic = true ->
+  forall mc w t s', mc < 4 -> lex (mode_of_code mc) (init w) = Ok (t, s') ->
+    kw_entry_ok ic (mc, w, kind_code (tk_kind t), N.of_nat (tk_len t)) = true.
+Proof. exact lex_first_token_kw_ok. Qed.
+Print Assumptions c17_lex_first_token_kw_ok.
+
+(* Over the tables probed from the rebuilt code on this run (coq/gen/Gen_NinjaKeywords.v): *)
+Definition probed_keywords : list (N * bytes * N * N) :=
+  expand_keyword_table probed_keyword_singles probed_keyword_families.
+
+(* the table is complete: all 256 byte values at every position of every keyword, both one-byte extensions, both
+   truncations, in the modes None and IdentifierSpecific; the exact keywords in all four modes *)
+Theorem c17_probed_keywords_cover :
+  families_complete probed_keyword_families = true /\ probes_cover probed_keyword_singles probed_keyword_families = true.
+Proof. split; vm_compute; reflexivity. Qed.
+Print Assumptions c17_probed_keywords_cover.
+
+(* the code's identifier characters are the model's (all 256 values) *)
+Theorem c17_probed_identchars_are_the_models :
+  charclass_matches is_ident_char probed_identchars = true /\
+  charclass_matches is_simple_ident_char probed_simple_identchars = true.
+Proof. split; vm_compute; reflexivity. Qed.
+Print Assumptions c17_probed_identchars_are_the_models.
+
+(* the code's answers on the whole table satisfy the keyword property (checked against the keyword table and the
+   probed identifier characters only, the lexer model is not involved) *)
+Theorem c17_probed_keywords_ok : keywords_ok probed_identchars probed_keywords = true.
+Proof. vm_compute. reflexivity. Qed.
+Print Assumptions c17_probed_keywords_ok.
+
+(* and the model answers every probed input as the code did *)
+Theorem c17_probed_keywords_match_model : keywords_match_model probed_keywords = true.
+Proof. vm_compute. reflexivity. Qed.
+Print Assumptions c17_probed_keywords_match_model.
+
+(* ================================ C17: shell quoting ========================================================== *)
+
+(* shell_roundtrip, for every whitelist without shell metacharacters *)
+Theorem c17_shell_roundtrip : forall wl p, whitelist_ok wl = true -> p <> [] -> ~ In 0 p ->
+  sh_words (shell_escaped_gen wl p) = Some [p].
+Proof. exact shell_roundtrip. Qed.
+Print Assumptions c17_shell_roundtrip.
+
+Theorem c17_shell_roundtrip_current : forall p, p <> [] -> ~ In 0 p -> sh_words (shell_escaped p) = Some [p].
+Proof. exact shell_roundtrip_current. Qed.
+Print Assumptions c17_shell_roundtrip_current.
+
+(* the side conditions are needed *)
+Theorem c17_shell_roundtrip_empty_refuted :
+  exists p, p = [] /\ sh_words (shell_escaped p) = Some [] /\ sh_words (shell_escaped p) <> Some [p].
+Proof. exact shell_roundtrip_empty_refuted. Qed.
+Print Assumptions c17_shell_roundtrip_empty_refuted.
+
+Theorem c17_shell_roundtrip_nul_refuted : exists p, In 0 p /\ sh_words (shell_escaped p) = None.
+Proof. exact shell_roundtrip_nul_refuted. Qed.
+Print Assumptions c17_shell_roundtrip_nul_refuted.
+
+Theorem c17_whitelist_with_hash_refuted : exists p, p <> [] /\ ~ In 0 p /\
+  shell_escaped_gen (35 :: whitelist) p = p /\ sh_words (shell_escaped_gen (35 :: whitelist) p) = Some [].
+Proof. exact whitelist_with_hash_refuted. Qed.
+Print Assumptions c17_whitelist_with_hash_refuted.
+
+Theorem c17_whitelist_with_tilde_refuted : exists p, p <> [] /\ ~ In 0 p /\
+  shell_escaped_gen (126 :: whitelist) p = p /\ sh_words (shell_escaped_gen (126 :: whitelist) p) = None.
+Proof. exact whitelist_with_tilde_refuted. Qed.
+Print Assumptions c17_whitelist_with_tilde_refuted.
+
+Theorem c17_whitelist_ok_necessary : forall wl b, In b wl -> b <> 0 -> sh_meta b = true ->
+  shell_escaped_gen wl [b] = [b] /\ sh_words (shell_escaped_gen wl [b]) <> Some [[b]].
+Proof. exact whitelist_ok_necessary. Qed.
+Print Assumptions c17_whitelist_ok_necessary.
+
+(* shell_escaped_safe_chars *)
+Theorem c17_shell_escaped_safe_chars : forall wl p,
+  shell_escaped_gen wl p = p <-> forallb (fun b => mem_byte b wl) p = true.
+Proof. exact shell_escaped_safe_chars. Qed.
+Print Assumptions c17_shell_escaped_safe_chars.
+
+Theorem c17_shell_escaped_quoted : forall wl p, forallb (fun b => mem_byte b wl) p = false ->
+  exists mid, shell_escaped_gen wl p = 39 :: mid ++ [39].
+Proof. exact shell_escaped_quoted. Qed.
+Print Assumptions c17_shell_escaped_quoted.
+
+Theorem c17_shell_escaped_gen_ext : forall wl1 wl2, whitelist_same wl1 wl2 = true ->
+  forall s, shell_escaped_gen wl1 s = shell_escaped_gen wl2 s.
+Proof. exact shell_escaped_gen_ext. Qed.
+Print Assumptions c17_shell_escaped_gen_ext.
+
+(* Over the whitelist probed from the rebuilt code on this run (coq/gen/Gen_ShellWhitelist.v): *)
+
+(* no byte that shellEscaped leaves unquoted is a shell metacharacter
+   ( | & ; < > ( ) $ ` \ double-quote single-quote space tab newline * ? [ NUL anywhere, # ~ at the start of a word ) *)
+Theorem c17_probed_whitelist_ok : whitelist_ok probed_whitelist = true.
+Proof. vm_compute. reflexivity. Qed.
+Print Assumptions c17_probed_whitelist_ok.
+
+Theorem c17_probed_whitelist_is_the_models : whitelist_same probed_whitelist whitelist = true.
+Proof. vm_compute. reflexivity. Qed.
+Print Assumptions c17_probed_whitelist_is_the_models.
+
+Theorem c17_probed_shell_single_bytes : map (fun b => shell_escaped [b]) all_bytes = probed_shell_single.
+Proof. vm_compute. reflexivity. Qed.
+Print Assumptions c17_probed_shell_single_bytes.
+
+(* hence the round trip for the function with the whitelist the code uses now *)
+Theorem c17_shell_roundtrip_probed_whitelist : forall p, p <> [] -> ~ In 0 p ->
+  sh_words (shell_escaped_gen probed_whitelist p) = Some [p].
+Proof. intros p. apply shell_roundtrip. exact c17_probed_whitelist_ok. Qed.
+Print Assumptions c17_shell_roundtrip_probed_whitelist.
+
+(* non-vacuity: instances meeting the hypotheses are the Examples ex_* of NinjaLexProofs.v and ShellQuoteProofs.v;
+   two of them restated here *)
+Example c17lex_lex_all_instance :
+  lex_all MPathString [98; 117; 105; 108; 100; 32; 255; 36; 10; 32; 120; 58; 32; 36] =
+  Ok [mkTok TkString 0 5 1 0; mkTok TkString 6 5 1 6; mkTok TkColon 11 1 2 2; mkTok TkString 13 1 2 4;
+      mkTok TkEndOfFile 14 0 2 5].
+Proof. vm_compute. reflexivity. Qed.
+
+Example c17lex_shell_instance :
+  sh_words (shell_escaped_gen probed_whitelist [35; 105; 116; 39; 115; 32; 255]) = Some [[35; 105; 116; 39; 115; 32; 255]].
+Proof. vm_compute. reflexivity. Qed.
